@@ -25,3 +25,6 @@ M("c02_sweeper_only_via_step", ["C02"], "reach_allow", tier="quick",
   desc="MIR of StorageEngine::expiration_cleanup_loop: the sweeper removes keys from a shard ONLY through DatabaseShard::remove_if_expired (which re-checks the stored deadline under the write lock); no direct HashMap::remove on the data map is reachable",
   fn=r"::expiration_cleanup_loop$", deny=[r"^(std::collections::)?HashMap::(remove|clear|retain|drain)$"],
   must_reach=[r"remove_if_expired$"])
+K("c02_setex_deadline", "eng", ["C02"], tier="quick", timeout=900,
+  desc="SET EX / SET NX EX with any (u32 s, ns) duration incl. zero: the value carries deadline = now + ttl and the expiry index holds the same instant",
+  encodes=["StorageEngine::set_string_ex", "set_string_nx_ex", "set_value", "StoredValue::with_expiration"], bounds="secs u32, nanos symbolic; 1-byte value", stubs=CLK)
